@@ -5,6 +5,11 @@ import (
 )
 
 func (p *Pool) Stop() {
+	// concurrent Stops take turns: the second one finds the pool already stopped
+	// instead of closing the channel and unlocking runM a second time
+	p.stopM.Lock()
+	defer p.stopM.Unlock()
+
 	defer p.runM.Unlock()
 	if p.runM.TryLock() {
 		slog.Warn("worker pool already stopped")
